@@ -13,7 +13,9 @@ for s in "${seeds[@]}"; do
   # a seed may name the property whose check is the one that must report it (meta.json "checked_by")
   cb=$(python3 -c "import json;print(json.load(open('/verif/seeded/$s/meta.json')).get('checked_by',''))" 2>/dev/null); [ -n "$cb" ] && p=$cb
   git -C /repo apply /verif/seeded/$s/patch.diff || { echo "| $s | $p | PATCH-DOES-NOT-APPLY | | | |" >> $out; continue; }
-  line=$(python3 check.py $p --tier quick 2>&1 | grep -E "^VIOLATION" | head -1)
+  # a seed may need the thorough tier to be reached (meta.json "tier")
+  tier=$(python3 -c "import json;print(json.load(open('/verif/seeded/$s/meta.json')).get('tier','quick'))" 2>/dev/null); [ -z "$tier" ] && tier=quick
+  line=$(python3 check.py $p --tier $tier 2>&1 | grep -E "^VIOLATION" | head -1)
   git -C /repo checkout -- . ; git -C /repo clean -fdq -- src examples tests dict 2>/dev/null
   if [ -z "$line" ]; then echo "| $s | $p | **MISSED** | | | |" >> $out; echo "$s MISSED"; continue; fi
   rp=$(echo "$line" | sed -E 's/.*replay=([^ ]+).*/\1/')
@@ -23,7 +25,7 @@ d=json.load(open(sys.argv[1]))
 print("%s | %s | %s" % (d.get("kind"), str(d.get("what_no_longer_checks"))[:70].replace("|","/"), str(d.get("message"))[:110].replace("|","/").replace("\n"," ")))
 PY
 )
-  v="caught"; echo "$line" | grep -q "no-failing-input-found" && v="caught (no failing input found)"
+  v="caught"; [ "$tier" != "quick" ] && v="caught ($tier tier)"; echo "$line" | grep -q "no-failing-input-found" && v="caught (no failing input found)"
   echo "| $s | $p | $v | $info |" >> $out
   echo "$s $v"
 done
